@@ -5,6 +5,7 @@ package dnsforward
 // C01 — a query blocked by rules is answered locally and never forwarded.
 //
 //vx:overlay internal/dnsforward/zz_vx_c01.go
+//vx:native
 //vx:entry vxC01Decision reach=blocked,forwarded,allowlisted,protection-off,client-filtering-off,service-blocked
 //vx:entry vxC01Modes reach=blocked
 //vx:entry vxC01ProtectionHistory reach=blocked,forwarded
